@@ -163,9 +163,63 @@ impl ChainSt {
         format!("{}:{}", self.cfg.prop, c)
     }
 
+
+    /// The credential rule on the heads a caller can obtain from this redirected flow after its own
+    /// Prepare-state calls (own cookie / authorization attached; send_body_despite_method()).
+    fn check_credential_variants(&self, f: &Flow<(), Prepare>) -> Result<(), (String, String)> {
+            // "never present" must also hold when the caller attaches its own cookie / credentials for the
+        // redirect target (what a cookie jar does): the inherited values must stay out
+        let mut g = f.clone();
+        let _ = g.header("cookie", "k=NEW");
+        let _ = g.header("authorization", "NEW");
+        let _ = g.header("x-b", "1");
+        let w = write_head(&g, false);
+        if w.err.is_none() {
+            if let Ok(h2) = head::parse(&w.bytes) {
+                for (name, val) in &h2.fields {
+                    let v = String::from_utf8_lossy(val);
+                    if name == "cookie" && v.contains("ORIG") {
+                        return Err((self.k("cookie-leaked"), format!("hop {}: after the caller added its own cookie to the redirected flow, the previous request's Cookie header is sent as well: {}", self.hop, v)));
+                    }
+                    if name == "content-length" && self.cfg.req.orig.iter().any(|(k, ov)| k == "content-length" && ov == val) {
+                        return Err((self.k("content-length-leaked"), format!("hop {}: after caller additions the previous request's Content-Length is present", self.hop)));
+                    }
+                    if name == "authorization" && v.contains("S3CRET") && !self.auth_may {
+                        return Err((self.k("authorization-leaked"), format!("hop {}: after the caller added its own authorization to the redirected flow, the original Authorization is sent to {} as well", self.hop, uri3986::to_string(&self.cur))));
+                    }
+                }
+            }
+        }
+        // ... and when the caller converts the redirected flow with send_body_despite_method()
+        let mut g2 = f.clone();
+        g2.send_body_despite_method();
+        let w2 = write_head(&g2, false);
+        if w2.err.is_none() {
+            if let Ok(h3) = head::parse(&w2.bytes) {
+                for (name, val) in &h3.fields {
+                    let v = String::from_utf8_lossy(val);
+                    if name == "cookie" && v.contains("ORIG") {
+                        return Err((self.k("cookie-leaked"), format!("hop {}: after send_body_despite_method() on the redirected flow the previous request's Cookie is sent: {}", self.hop, v)));
+                    }
+                    if name == "content-length" && self.cfg.req.orig.iter().any(|(k, ov)| k == "content-length" && ov == val) {
+                        return Err((self.k("content-length-leaked"), format!("hop {}: after send_body_despite_method() on the redirected flow the previous request's Content-Length ({}) is announced", self.hop, v)));
+                    }
+                    if name == "authorization" && v.contains("S3CRET") && !self.auth_may {
+                        return Err((self.k("authorization-leaked"), format!("hop {}: after send_body_despite_method() the original Authorization is sent to {}", self.hop, uri3986::to_string(&self.cur))));
+                    }
+                }
+            }
+        }
+        Ok(())
+    }
+
     /// Oracles on the head this flow writes (both buffer schedules must agree).
     fn check_head(&self) -> Result<(), (String, String)> {
         let Some(f) = &self.flow else { return Ok(()) };
+        if self.cfg.check_credentials && self.hop > 0 {
+            // also when the library refuses to write the untouched redirected request
+            self.check_credential_variants(f)?;
+        }
         let a = write_head(f, false);
         let b = write_head(f, true);
         if a.err.is_some() {
@@ -219,49 +273,6 @@ impl ChainSt {
             }
         }
         if self.cfg.check_credentials && self.hop > 0 {
-            // "never present" must also hold when the caller attaches its own cookie / credentials for the
-            // redirect target (what a cookie jar does): the inherited values must stay out
-            let mut g = f.clone();
-            let _ = g.header("cookie", "k=NEW");
-            let _ = g.header("authorization", "NEW");
-            let _ = g.header("x-b", "1");
-            let w = write_head(&g, false);
-            if w.err.is_none() {
-                if let Ok(h2) = head::parse(&w.bytes) {
-                    for (name, val) in &h2.fields {
-                        let v = String::from_utf8_lossy(val);
-                        if name == "cookie" && v.contains("ORIG") {
-                            return Err((self.k("cookie-leaked"), format!("hop {}: after the caller added its own cookie to the redirected flow, the previous request's Cookie header is sent as well: {}", self.hop, v)));
-                        }
-                        if name == "content-length" && self.cfg.req.orig.iter().any(|(k, ov)| k == "content-length" && ov == val) {
-                            return Err((self.k("content-length-leaked"), format!("hop {}: after caller additions the previous request's Content-Length is present", self.hop)));
-                        }
-                        if name == "authorization" && v.contains("S3CRET") && !self.auth_may {
-                            return Err((self.k("authorization-leaked"), format!("hop {}: after the caller added its own authorization to the redirected flow, the original Authorization is sent to {} as well", self.hop, uri3986::to_string(&self.cur))));
-                        }
-                    }
-                }
-            }
-            // ... and when the caller converts the redirected flow with send_body_despite_method()
-            let mut g2 = f.clone();
-            g2.send_body_despite_method();
-            let w2 = write_head(&g2, false);
-            if w2.err.is_none() {
-                if let Ok(h3) = head::parse(&w2.bytes) {
-                    for (name, val) in &h3.fields {
-                        let v = String::from_utf8_lossy(val);
-                        if name == "cookie" && v.contains("ORIG") {
-                            return Err((self.k("cookie-leaked"), format!("hop {}: after send_body_despite_method() on the redirected flow the previous request's Cookie is sent: {}", self.hop, v)));
-                        }
-                        if name == "content-length" && self.cfg.req.orig.iter().any(|(k, ov)| k == "content-length" && ov == val) {
-                            return Err((self.k("content-length-leaked"), format!("hop {}: after send_body_despite_method() on the redirected flow the previous request's Content-Length ({}) is announced", self.hop, v)));
-                        }
-                        if name == "authorization" && v.contains("S3CRET") && !self.auth_may {
-                            return Err((self.k("authorization-leaked"), format!("hop {}: after send_body_despite_method() the original Authorization is sent to {}", self.hop, uri3986::to_string(&self.cur))));
-                        }
-                    }
-                }
-            }
             // values inherited from the original request are recognisable by their text
             for (name, val) in &h.fields {
                 let v = String::from_utf8_lossy(val);
